@@ -12,9 +12,9 @@ for f in sorted(glob.glob(os.path.join(V, "seeded", "*", "meta.json"))):
     rows.append((mid, m.get("property", ""), m.get("summary", "").replace("\n", " ").replace("|", "/")[:260],
                  m.get("needs", "").replace("\n", " ").replace("|", "/")[:220], caught))
 with open(os.path.join(V, "seeded", "README.md"), "w") as out:
-    out.write("# Seeded changes\n\nEach directory holds `patch.diff` (against /repo HEAD at the time), `demo.sh` (exit 1 with the change, 0 without) and\n"
+    out.write("# Seeded changes\n\nEach directory holds `patch.diff` (against /repo HEAD at the time), `demo.sh` (rounds 1-6: exit 1 with the change, 0 without; round 7: prints what the binary does, the two outputs differ) and\n"
               "`meta.json`. Every change was written by an independent agent that saw only the property text, and was confirmed by\n"
-              "`bin/confirm-mutant` in a scratch worktree: the 158 tests pass with it, the demonstration fails with it and passes without.\n"
+              "`bin/confirm-mutant` / `bin/confirm-mutant2` in a scratch worktree: the 158 tests pass with it, the demonstration fails with it and passes without.\n"
               "`bin/mutant-test seeded/<id> <property>` applies it to /repo, runs the quick check, and restores /repo.\n\n"
               "| id | property | change | needs | result |\n|---|---|---|---|---|\n")
     for r in rows:
